@@ -88,17 +88,17 @@ PROPS = {
     "C13": P("C13", ["LSProofs.Props.C13"], ["cap", "kind", "text"],
              [fam("shrink", n=1), RANDOM_Q], [fam("shrink", n=4), RANDOM_T, ENUM_T], G13,
              search=[fam("shrink", n=4), fam("random", n=30000)]),
-    "C14": P("C14", ["LSProofs.Props.C14"], ["out", "text", "kind", "cap", "ev"],
+    "C14": P("C14", ["LSProofs.Props.C14", "LSProofs.Props.C14W"], ["out", "text", "kind", "cap", "ev"],
              [fam("ints", n=20000)], [fam("ints", n=400000), fam("ints_exhaustive32", n=1, scripted=False)],
              ["decDigitsLut"] + [f"digitTable_{t}" for t in ["u8", "i8", "u16", "i16", "u32", "i32", "u64", "i64"]]
              + ["digitDelegate_usize", "digitDelegate_isize", "nonzeroDelegation"]
              + [f"writer_{k}" for k in ["loopBound", "loopMod", "loopDiv", "remDiv", "remMod", "loopStep", "tailBound", "tailMod", "tailDiv", "lastBound"]],
              search=[fam("ints", n=400000)]),
-    "C15": P("C15", ["LSProofs.Props.C15"], ["out", "text", "ev"],
+    "C15": P("C15", ["LSProofs.Props.C15", "LSProofs.Props.C15W"], ["out", "text", "ev"],
              [fam("display", n=2000), fam("floats", n=400000, scripted=False), fam("chars", n=1, scripted=False)],
              [fam("display", n=20000), fam("floats", n=20000000, scripted=False), fam("floats_f32_all", n=1, scripted=False), fam("chars", n=1, scripted=False)],
              ["matchTypeArms"], search=[fam("display", n=20000)]),
-    "C16": P("C16", ["LSProofs.Props.C16"], ["out", "text"],
+    "C16": P("C16", ["LSProofs.Props.C16", "LSProofs.Props.C16W"], ["out", "text"],
              [fam("decode", n=4)], [fam("decode", n=5), fam("decode_oracle", n=6, scripted=False)], ["libGlue"],
              search=[fam("decode", n=5)]),
     "C17": P("C17", ["LSProofs.Props.C17"], None,
